@@ -142,8 +142,7 @@ func (w *world) tracef(format string, args ...any) {
 }
 
 // gname returns a stable logical name of the calling goroutine: registered callers by their index; the
-// goroutines the library starts by what they are (the updater; a single-flight fetch, qualified by the
-// name of the goroutine that started it, which the runtime prints in the "created by" line of the stack).
+// goroutines the library starts by what they are (the updater; the single-flight fetch).
 func (w *world) gname() string {
 	var buf [16384]byte
 	n := runtime.Stack(buf[:], false)
@@ -157,20 +156,10 @@ func (w *world) gname() string {
 	case strings.Contains(s, ").updateTS"):
 		return "upd"
 	case strings.Contains(s, "singleflight."):
-		creator := "?"
-		if i := strings.LastIndex(s, " in goroutine "); i >= 0 {
-			rest := s[i+len(" in goroutine "):]
-			if j := strings.IndexAny(rest, " \n"); j > 0 {
-				rest = rest[:j]
-			}
-			id, _ := strconv.ParseUint(rest, 10, 64)
-			w.mu.Lock()
-			if c, ok := w.names[id]; ok {
-				creator = c
-			}
-			w.mu.Unlock()
-		}
-		return "flt@" + creator
+		// a single-flight fetch of ValidateReadTS. Which of the waiting callers started it is decided by the Go
+		// scheduler, so it cannot be named after its creator; all validations of one run use the same
+		// single-flight key (Scenario.ValScope), hence at most one such goroutine exists at a time.
+		return "flt"
 	}
 	return "anon"
 }
@@ -232,6 +221,26 @@ func (w *world) yield(site string) {
 		if after, _ := w.o.GetLowResolutionTimestamp(context.Background(), &oracle.Option{TxnScope: oracle.GlobalTxnScope}); after != before {
 			w.sim.Count("probe.setLastTS.cas-loses-race")
 		}
+	}
+}
+
+// pause parks a harness goroutine until the simulator releases it after d of simulated time. Every step
+// and every sleep of a caller goes through here, so callers are woken one at a time in an order that is
+// a function of the seed (two sleeps ending at the same instant would otherwise be woken together by
+// the runtime, in an order the simulator does not control).
+func (w *world) pause(name string, d time.Duration) {
+	if w.stopping.Load() {
+		return
+	}
+	if d < 0 {
+		d = 0
+	}
+	key := w.nextKey(name, "step")
+	ch := make(chan struct{})
+	w.sim.Submit("step:"+key, d, w.schedH.U64(key), func() { close(ch) })
+	select {
+	case <-ch:
+	case <-w.down:
 	}
 }
 
@@ -404,8 +413,9 @@ func (w *world) constraintOf(c Call) uint64 {
 	return 0
 }
 
-func (w *world) do(ci, idx int, c Call) *Rec {
+func (w *world) do(name string, ci, idx int, c Call) *Rec {
 	r := &Rec{Caller: ci, Idx: idx, Call: c}
+	w.pause(name, 0) // the simulator decides who takes the next step
 	ctx := context.Background()
 	opt := &oracle.Option{TxnScope: c.Scope}
 	setErr := func(err error) {
@@ -430,7 +440,7 @@ func (w *world) do(ci, idx int, c Call) *Rec {
 	case "tsa":
 		f := w.o.GetTimestampAsync(ctx, opt)
 		if c.A > 0 {
-			time.Sleep(time.Duration(c.A) * time.Microsecond)
+			w.pause(name, time.Duration(c.A)*time.Microsecond)
 		}
 		ts, err := f.Wait()
 		r.TS = ts
@@ -467,11 +477,9 @@ func (w *world) do(ci, idx int, c Call) *Rec {
 	case "setint":
 		setErr(w.o.SetLowResolutionTimestampUpdateInterval(time.Duration(c.A) * time.Microsecond))
 	case "sleep":
-		time.Sleep(time.Duration(c.A) * time.Microsecond)
+		w.pause(name, time.Duration(c.A)*time.Microsecond)
 	case "until":
-		if d := time.Duration(c.A)*time.Microsecond - w.sim.Now(); d > 0 {
-			time.Sleep(d)
-		}
+		w.pause(name, time.Duration(c.A)*time.Microsecond-w.sim.Now())
 	case "cw":
 		txn, err := w.store.Begin(tikv.WithStartTS(1))
 		if err != nil {
@@ -501,9 +509,10 @@ func (w *world) do(ci, idx int, c Call) *Rec {
 }
 
 func (w *world) runCaller(ci int) {
-	defer w.register(fmt.Sprintf("c%d", ci))()
+	name := fmt.Sprintf("c%d", ci)
+	defer w.register(name)()
 	p := &w.sc.Callers[ci]
-	time.Sleep(time.Duration(p.StartUs) * time.Microsecond)
+	w.pause(name, time.Duration(p.StartUs)*time.Microsecond)
 	for i, c := range p.Calls {
 		if w.stopping.Load() {
 			return
@@ -511,7 +520,7 @@ func (w *world) runCaller(ci int) {
 		if c.Kind == "cw" && w.store == nil {
 			continue
 		}
-		r := w.do(ci, i, c)
+		r := w.do(name, ci, i, c)
 		w.recs[ci] = append(w.recs[ci], r)
 		w.sampleState()
 	}
@@ -537,7 +546,7 @@ func (w *world) run() {
 	}
 	// let the updater run on its own for a while, then read the cached ts once more
 	defer w.register("final")()
-	time.Sleep(time.Duration(w.sc.TailMs) * time.Millisecond)
+	w.pause("final", time.Duration(w.sc.TailMs)*time.Millisecond)
 	w.sampleState()
-	w.final = w.do(-1, 0, Call{Kind: "low", Scope: "global"})
+	w.final = w.do("final", -1, 0, Call{Kind: "low", Scope: "global"})
 }
